@@ -1528,6 +1528,11 @@ func (s *ImmuStore) fetchVLog(vLogID byte) (appendable.Appendable, error) {
 		return s.vLogs[0].vLog, nil
 	}
 
+	// the id comes from a value offset read from the tx log, which no hash covers
+	if _, ok := s.vLogs[vLogID-1]; !ok {
+		return nil, fmt.Errorf("%w: invalid vLogID %d", ErrCorruptedData, vLogID)
+	}
+
 	s.vLogsCond.L.Lock()
 	defer s.vLogsCond.L.Unlock()
 
